@@ -165,3 +165,8 @@ def _ret_conj(cb):
 # sensitivity pack (thorough tier): each seeded edit must be reported by the named rule instance
 MUTANTS = [{'name': 'content-type-encoding-swapped', 'file': 'src/inscriptions/inscription.rs', 'old': 'Tag::ContentType.append(&mut builder, &self.content_type);\n    Tag::ContentEncoding.append(&mut builder, &self.content_encoding);', 'new': 'Tag::ContentType.append(&mut builder, &self.content_encoding);\n    Tag::ContentEncoding.append(&mut builder, &self.content_type);', 'expect': ('R27.1', 'append_reveal_script_to_builder', 'Tag::ContentType')},
            {'name': 'from-value-length-guard-dropped', 'file': 'src/inscriptions/inscription_id.rs', 'old': '    if value.len() < Txid::LEN {\n      return None;\n    }\n', 'new': '', 'expect': ('R27.2', 'from_value', 'split_at')}]
+
+
+# behaviour-preserving edits (thorough tier): the rules must stay silent on every one of them
+NEUTRAL = [{'name': 'from_value: flipped comparison and a let binding', 'file': 'src/inscriptions/inscription_id.rs', 'old': '    if value.len() < Txid::LEN {\n      return None;\n    }\n\n    if value.len() > Txid::LEN + 4 {\n      return None;\n    }', 'new': '    let n = value.len();\n    if Txid::LEN > n {\n      return None;\n    }\n\n    if n > Txid::LEN + 4 {\n      return None;\n    }'},
+           {'name': 'reveal script: two field appends reordered', 'file': 'src/inscriptions/inscription.rs', 'old': '    Tag::Metaprotocol.append(&mut builder, &self.metaprotocol);\n    Tag::Parent.append_array(&mut builder, &self.parents);', 'new': '    Tag::Parent.append_array(&mut builder, &self.parents);\n    Tag::Metaprotocol.append(&mut builder, &self.metaprotocol);'}]
